@@ -593,6 +593,17 @@ Section AtRelease.
     rewrite (agree_fst _ plan_in_shape), agree_reason.
     rewrite (proj2 (status_eqb_eq _ _) eq_refl), (proj2 (reason_eqb_eq _ _) eq_refl). simpl.
     rewrite final_sound. rewrite <- plan_is_final. simpl.
-    rewrite (proj2 (reason_eqb_eq _ _) eq_refl). reflexivity.
+    rewrite (proj2 (reason_eqb_eq _ _) eq_refl). simpl.
+    (* 17 *)
+    assert (C17 : group_truthful sh (m_t m) fin = true).
+    { unfold group_truthful. apply forallb_forall. intros g _. rewrite present_eq.
+      destruct (gpresent sh g) eqn:P; [|reflexivity]. simpl.
+      rewrite (agree_is_st _ _ (pgroup_in_shape _ P)).
+      pose proof (grp_failed_iff g) as X.
+      destruct (status_eqb (f (OChecks SPlan g)) Failed) eqn:A; destruct (grp_failed sh (m_t m) g) eqn:B;
+        try reflexivity; exfalso.
+      - apply status_eqb_eq in A. apply X in A. discriminate.
+      - assert (Y : f (OChecks SPlan g) = Failed) by (apply X; reflexivity). rewrite Y in A. discriminate. }
+    rewrite C17. reflexivity.
   Qed.
 End AtRelease.
